@@ -1076,7 +1076,7 @@ class RulesMixin:
                 self.ctx.assumptions_used.add(f"{unit}: the rely clause {cl.name} is not demanded of the unit's last segment: {ends[cl.name]}")
                 continue
             v = self.spec_eval_p(cl, {"self": us}, seg)
-            self.ctx.prove(f"{unit}.guarantee.{cl.name}", self.as_z3_bool(v), cl.text, where, note=f"guarantee of the segment ending at ({why})", props=cl.props)
+            self.ctx.prove(f"{unit}.guarantee.{cl.name}", self.as_z3_bool(v), cl.text, where, note=f"guarantee of the segment ending at ({why})", props=cl.props, assume_after=False)
 
     def havoc_object_fields(self, obj: SObj):
         model = self.model_for(obj.cls)
